@@ -332,7 +332,7 @@ def proj_c10(evs):
 
 
 def generic_replay_check(pid, tier, progs, proj, what, rule, ctors=(0,), clone_points=False,
-                         workers=None, seed=None, rand_runs=None, rand_len=24, **kw):
+                         workers=None, seed=None, rand_runs=None, rand_len=24, artifact=None, **kw):
     if seed is None:
         seed = SEED
     if rand_runs is None:
@@ -357,6 +357,13 @@ def generic_replay_check(pid, tier, progs, proj, what, rule, ctors=(0,), clone_p
     if fr.ws is not None and rand_runs:
         trace_part(out, pid, tier, progs, fr.ws, fr.batches, seed, rand_runs, rand_len, proj, what,
                    ctors=ctors)
+    if artifact:
+        artifact_part(out, pid, tier, progs, artifact)
+        out.coverage["rule"] += ("; artifact validation: the automata the macro built for these "
+                                 "programs are compared with the reference derivative automaton by TLC "
+                                 "(Bisim.tla, all strings), the state renumbering tables are checked, and "
+                                 "the recorded iterations of the backtrack analysis are validated against "
+                                 "Backtrack.tla (monotone, terminates, flags = reachability)")
     return out
 
 
@@ -385,7 +392,8 @@ def check_C01(tier, seed):
         "token sequence differs from the maximal-munch reference",
         "programs: 10 fixed maximal-munch shapes (the property's own examples, issue 16, cycles and "
         "joins) + seeded random 2-6 rule single-rule-set definitions with and without `rule` "
-        "blocks; " + INPUTS_RULE + "compared: (rule, lexeme byte span) of every action and token")
+        "blocks; " + INPUTS_RULE + "compared: (rule, lexeme byte span) of every action and token",
+        artifact="accepting rules / rewind flags of the compiled automaton are wrong")
 
 
 def check_C03(tier, seed):
@@ -399,7 +407,8 @@ def check_C03(tier, seed):
         "with a menu of 1-3 decisions among continue/return x reset x switch-to-any-rule-set; "
         + INPUTS_RULE + "compared: (rule, lexeme span) of every action and token up to the first "
         "InvalidToken, and over the whole trace that every rule that ran belongs to the rule set "
-        "that the trace's own switch decisions / failures made active")
+        "that the trace's own switch decisions / failures made active",
+        artifact="a rule set's entry state does not lead to that rule set's automaton")
 
 
 def check_C04(tier, seed):
@@ -416,7 +425,8 @@ def check_C04(tier, seed):
         "programs: seeded random definitions in which about half of the rules carry a right context "
         "(literals, sets, repetition, `$`, nullable contexts) in any priority position; "
         + INPUTS_RULE + "compared: (rule, lexeme span, next character seen by the action) of every "
-        "action and token up to the first InvalidToken")
+        "action and token up to the first InvalidToken",
+        artifact="a right-context automaton or a context-guarded accepting state is wrong")
 
 
 def check_C05(tier, seed):
@@ -425,7 +435,8 @@ def check_C05(tier, seed):
                               menu_sizes=(1, 2), p_fal=0.2, letters=(F.A, F.B), sigma=(F.A, F.B, 120))
              + F.random_general(seed + 1, n // 2, 3000, k=k, nsets=(1,), nrules=(1, 2, 3), p_eoi=0.5,
                                 menu_sizes=(1, 2), p_fal=0.0, named=False, letters=(F.A, F.B),
-                                sigma=(F.A, F.B, 120)))
+                                sigma=(F.A, F.B, 120))
+             + F.join_templates(seed + 2, n // 2, 6000, k=k, p_eoi=0.8))
     return generic_replay_check(
         "C05", tier, progs, proj_c05,
         "end-of-input protocol violated ($ rule, None/InvalidToken at the end, fused stream)",
@@ -469,6 +480,7 @@ def check_C08(tier, seed):
     n, k = sizes(tier, (60, 4), (700, 5))
     progs = F.random_general(seed, n, 100, k=k, nsets=(2, 2, 3), nrules=(1, 2, 2, 3),
                              menu_sizes=(1, 2), p_fal=0.1, letters=(F.A, F.B), sigma=(F.A, F.B, 120))
+    progs += F.join_templates(seed + 2, n // 2, 6000, k=k + 2, p_eoi=0.2, nsets=(2, 2, 3), p_ctx=0.3)
     return generic_replay_check(
         "C08", tier, progs, proj_c08,
         "after an InvalidToken the lexer did not resume right after the examined text, in Init, and stay there",
@@ -669,7 +681,7 @@ def check_C09(tier, seed):
     n, k = sizes(tier, (50, 3), (500, 4))
     progs = (F.random_general(seed, n, 100, k=k, nsets=(1, 2, 3), nrules=(0, 1, 2, 3, 4), p_ctx=0.2,
                               p_eoi=0.2, menu_sizes=(1, 2, 3), p_fal=0.3)
-             + F.fixed_mm(5000))
+             + F.fixed_mm(5000) + F.join_templates(seed + 2, n // 3, 6000, k=k + 1, nsets=(1, 2), p_ctx=0.2))
     byid = {p.id: p for p in progs}
     fr = replay_family("C09", progs, workers=8 if tier == "quick" else 14,
                        tlc_timeout=700 if tier == "quick" else 3300)
@@ -1340,6 +1352,843 @@ def check_C13(tier, seed):
     return out
 
 
+# ---------------------------------------------------------------------------------------------
+# C16 / C17: syntax, scoping, static checks -- through lexer_verif! (expansion only)
+# ---------------------------------------------------------------------------------------------
+
+def verif_crates(tag, invocations, nb=12):
+    """Build crates that only contain `lexgen::lexer_verif! { <id>; <definition> }` invocations.
+    invocations: list of (ident, definition text).  Returns (workspace, {ident: outcome dict})."""
+    from common import Workspace, REPO
+    ws = Workspace(tag)
+    per = [[] for _ in range(nb)]
+    for k, inv in enumerate(invocations):
+        per[k % nb].append(inv)
+    for bi_, invs in enumerate(per):
+        if not invs:
+            continue
+        body = "\n".join("lexgen::lexer_verif! { %s; %s }" % (ident, text) for ident, text in invs)
+        ws.add_crate("%s_v%d" % (tag.lower(), bi_), "#![allow(dead_code)]\n" + body + "\nfn main() {}\n",
+                     deps='lexgen = { path = "%s/crates/lexgen" }\n' % REPO)
+    ok, err = ws.build(timeout=2400, expand_timeout=60)
+    outcomes = {}
+    for ident, _ in invocations:
+        p_ = os.path.join(ws.dumps, ident + ".outcome.json")
+        if os.path.exists(p_):
+            with open(p_) as f:
+                outcomes[ident] = json.load(f)
+    return ws, outcomes, ok, err
+
+
+def boundary_reps(prog):
+    """Boundary representatives of a definition: every literal character and range end point,
+    +-1, plus one far-away character."""
+    pts = set()
+
+    def walk(re):
+        k = re["k"]
+        if k == "chr":
+            pts.update((re["c"] - 1, re["c"], re["c"] + 1))
+        elif k == "str":
+            for c in re["s"]:
+                pts.update((c - 1, c, c + 1))
+        elif k == "set":
+            for it in re["items"]:
+                pts.update((it["lo"] - 1, it["lo"], it["hi"], it["hi"] + 1))
+        for f in ("a", "b"):
+            if f in re:
+                walk(re[f])
+
+    for r in prog.rules():
+        walk(r["re"])
+        if r.get("ctx") is not None:
+            walk(r["ctx"])
+    for _, re, _ in prog.env:
+        walk(re)
+    pts.add(0x10FF00)
+    return sorted(c for c in pts if 0 <= c <= 0x10FFFF and not (0xD800 <= c <= 0xDFFF))
+
+
+def dump_programs(tag, programs, nb=12):
+    """Expand the definitions with the real macro (expansion only, lexer_verif!) and collect the
+    automata it dumped.  Returns (workspace, {prog id: dump or None}, {prog id: outcome})."""
+    invs = []
+    for p in programs:
+        invs.append(("V%d" % p.id, "%s(St) -> Tok; type Error = UErr; %s" % (p.lexer_name(), p.body())))
+    ws, outcomes, ok, err = verif_crates(tag, invs, nb=nb)
+    dumps = {}
+    outs = {}
+    for p in programs:
+        dumps[p.id] = ws.dump(p.lexer_name())
+        outs[p.id] = outcomes.get("V%d" % p.id)
+    return ws, dumps, outs, ok, err
+
+
+def bisim_check(tag, pairs, workers=10, timeout=3000):
+    """pairs: list of (program, dump, program json override or None).  Runs TLC on Bisim.tla.
+    Returns (tlc result, bad list, badmap list, seen ids)."""
+    from common import run_tlc, BUILD
+    d = os.path.join(BUILD, tag)
+    os.makedirs(d, exist_ok=True)
+    pj = os.path.join(d, "bisim.json")
+    arr = []
+    for prog, dump, override in pairs:
+        j = dict(override if override is not None else prog.to_json())
+        j["reps"] = boundary_reps(prog)
+        arr.append({"prog": j, "dump": {k: dump[k] for k in ("dfa_pre", "dfa", "ctx", "entry_pre", "entry",
+                                                               "renumber", "switch_arms")}})
+    with open(pj, "w") as f:
+        json.dump(arr, f)
+    res = run_tlc("Bisim.tla", "MC_Bisim.cfg", env={"VERIF_BISIM": pj}, workers=workers, timeout=timeout,
+                  tag=tag + "_bisim", heap="10g")
+    if not res.ok:
+        raise ToolError("TLC failed on Bisim.tla (%s):\n%s" % (tag, res.error))
+    return res, res.tagged.get("BAD", []), res.tagged.get("BADMAP", []), {x["p"] for x in res.tagged.get("SEEN", [])}
+
+
+ATOM_TXT = {"a": "'a'", "b": "'b'", "K": "['a'-'c']", "_": "_"}
+ATOM_DBG = {"a": "Char('a')", "b": "Char('b')", "K": "CharSet(CharSet([Range('a', 'c')]))", "_": "Any"}
+
+
+def tree_dbg(t):
+    k = t["k"]
+    if k == "atom":
+        return ATOM_DBG[t["x"]]
+    if k in ("star", "plus", "opt"):
+        return {"star": "ZeroOrMore", "plus": "OneOrMore", "opt": "ZeroOrOne"}[k] + "(" + tree_dbg(t["a"]) + ")"
+    return {"alt": "Or", "cat": "Concat", "diff": "Diff"}[k] + "(" + tree_dbg(t["a"]) + ", " + tree_dbg(t["b"]) + ")"
+
+
+def toks_txt(toks):
+    return " ".join(ATOM_TXT.get(t, t) for t in toks)
+
+
+def ast_re(dump_ast):
+    """the `re:` field of the first rule in the Debug text of the parsed definition"""
+    import re as _re
+    m = _re.search(r"lhs: RegexCtx \{ re: (.*?), right_ctx: ", dump_ast)
+    return m.group(1) if m else None
+
+
+def check_C16(tier, seed):
+    from common import run_tlc, BUILD
+    import random
+    out = Outcome("C16")
+    maxops = 2 if tier == "quick" else 3
+    cfg = os.path.join(BUILD, "C16_syntax.cfg")
+    os.makedirs(BUILD, exist_ok=True)
+    with open(cfg, "w") as f:
+        f.write("CONSTANTS\n  MaxOps = %d\nINIT Init\nNEXT Next\nINVARIANTS RoundTrip ReadmeExample PrintCase\nCHECK_DEADLOCK FALSE\n" % maxops)
+    tlc = run_tlc("Syntax.tla", cfg, workers=12, timeout=3000, tag="C16", heap="10g")
+    if not tlc.ok:
+        raise ToolError("TLC found an error in Syntax.tla:\n" + str(tlc.error))
+    cases = tlc.tagged.get("SYN", [])
+    rnd = random.Random(seed)
+    if tier == "quick" and len(cases) > 12000:
+        cases = rnd.sample(cases, 12000)
+    invs = []
+    for i, c in enumerate(cases):
+        invs.append(("V%d" % i, "L%d -> u8; rule Init { %s = 0u8, }" % (i, toks_txt(c["toks"]))))
+    # scoping / let factoring: for a sample of trees with >= 1 operator
+    scoped = []
+    big = [c for c in cases if c["tree"]["k"] != "atom"]
+    for j, c in enumerate(rnd.sample(big, min(len(big), 150 if tier == "quick" else 1500))):
+        t = c["tree"]
+        sub = t["a"]
+        sub_txt = toks_txt(sub_toks(sub))
+        whole_with_var = toks_txt(with_var(t))
+        base = 100000 + 10 * j
+        plain = toks_txt(c["toks"])
+        # the lexers below must all compile to the same automaton as `plain`
+        scoped.append((base + 0, "plain", "rule Init { %s = 0u8, }" % plain, None))
+        scoped.append((base + 1, "top-level let", "let v = %s; rule Init { %s = 0u8, }" % (sub_txt, whole_with_var), base))
+        scoped.append((base + 2, "rule-set let", "rule Init { let v = %s; %s = 0u8, }" % (sub_txt, whole_with_var), base))
+        scoped.append((base + 3, "top-level let used in a later rule set",
+                       "let v = %s; rule Init { 'b' = 1u8, } rule A { %s = 0u8, }" % (sub_txt, whole_with_var), None))
+        scoped.append((base + 4, "plain in a later rule set", "rule Init { 'b' = 1u8, } rule A { %s = 0u8, }" % plain, None))
+        # a rule-set-local binding is not visible in another rule set: must be rejected
+        scoped.append((base + 5, "rule-set let used in another rule set (must be rejected)",
+                       "rule Init { let v = %s; 'b' = 1u8, } rule A { %s = 0u8, }" % (sub_txt, whole_with_var), "reject"))
+    for ident, what, text, ref in scoped:
+        invs.append(("V%d" % ident, "L%d -> u8; %s" % (ident, text)))
+    ws, outcomes, ok, err = verif_crates("C16", invs)
+    if not ok and not outcomes:
+        raise ToolError("C16 verif crates failed to build:\n" + err[-2000:])
+    n_ok = 0
+    for i, c in enumerate(cases):
+        ident = "V%d" % i
+        text = toks_txt(c["toks"])
+        key = "regex text=%s" % text
+        d = ws.dump("L%d" % i)
+        o = outcomes.get(ident)
+        if d is None or o is None:
+            out.violations.append({"key": key, "desc": "no syntax tree produced for `%s` (outcome %s)" % (text, o and o.get("outcome")),
+                                   "payload": {"kind": "syntax", "text": text, "tree": c["tree"], "outcome": o}})
+            continue
+        got = ast_re(d.get("ast", ""))
+        want = tree_dbg(c["tree"])
+        if got != want:
+            out.violations.append({"key": key, "desc": "`%s` was read as %s, the documented grammar reads it as %s" % (text, got, want),
+                                   "payload": {"kind": "syntax", "text": text, "tree": c["tree"], "got": got, "want": want}})
+        else:
+            n_ok += 1
+    n_scope = 0
+    for ident, what, text, ref in scoped:
+        o = outcomes.get("V%d" % ident)
+        key = "scoping %s: %s" % (what, text)
+        if ref == "reject":
+            if o is None or o["outcome"] == "ok":
+                out.violations.append({"key": key, "desc": "a rule-set-local `let` was visible in another rule set: `%s` expanded" % text,
+                                       "payload": {"kind": "scoping", "text": text, "outcome": o}})
+            else:
+                n_scope += 1
+            continue
+        d = ws.dump("L%d" % ident)
+        if d is None or o is None or o["outcome"] != "ok":
+            out.violations.append({"key": key, "desc": "`%s` (%s) did not expand: %s" % (text, what, o and (o.get("message") or "")[:200]),
+                                   "payload": {"kind": "scoping", "text": text, "outcome": o}})
+            continue
+        if isinstance(ref, int):
+            dref = ws.dump("L%d" % ref)
+            if dref is None or dref.get("dfa") != d.get("dfa"):
+                out.violations.append({"key": key, "desc": "naming a sub-tree with a `let` changed the automaton: `%s`" % text,
+                                       "payload": {"kind": "scoping", "text": text}})
+                continue
+        n_scope += 1
+    # the two "later rule set" variants must agree with each other
+    for j in range(0, len(scoped), 6):
+        a, b_ = ws.dump("L%d" % scoped[j + 3][0]), ws.dump("L%d" % scoped[j + 4][0])
+        if a is not None and b_ is not None and a.get("dfa") != b_.get("dfa"):
+            out.violations.append({"key": "scoping later-set: %s" % scoped[j + 3][2],
+                                   "desc": "a top-level `let` used in a later rule set changed the automaton: `%s`" % scoped[j + 3][2],
+                                   "payload": {"kind": "scoping", "text": scoped[j + 3][2]}})
+    out.coverage = {
+        "states": tlc.distinct, "transitions": tlc.states,
+        "traces_validated_against_impl": n_ok + n_scope,
+        "printed_trees": len(cases), "scoping_variants": len(scoped),
+        "rule": "Syntax.tla: all regex trees with <= %d operators over 4 atoms, printed with minimal "
+                "parentheses, with one redundant pair around each sub-tree in turn, and with all of "
+                "them; TLC checks Parse(Print(t)) = t for the documented five-level grammar and "
+                "prints every (tree, token string); each string is expanded by the real macro "
+                "(lexer_verif!) and the syntax tree its parser built (dump hook) compared with the "
+                "tree; for a sample of trees a sub-tree is named with a top-level or rule-set-local "
+                "`let` and the compiled automaton must be identical; a rule-set-local binding used "
+                "in another rule set must be rejected" % maxops,
+        "samples": [{"tree": cases[0]["tree"], "text": toks_txt(cases[0]["toks"])}] if cases else [],
+        "tlc_cmd": tlc.cmd, "exhaustive": tier != "quick" or len(cases) < 12000,
+    }
+    return out
+
+
+def sub_toks(t):
+    """minimal printing of a tree as tokens (mirror of Syntax!PrintMin)"""
+    lv = {"alt": 0, "cat": 1, "star": 2, "plus": 2, "opt": 2, "diff": 3}
+
+    def pr(t, lvl):
+        k = t["k"]
+        if k == "atom":
+            body = [t["x"]]
+        elif k == "alt":
+            body = pr(t["a"], 0) + ["|"] + pr(t["b"], 1)
+        elif k == "cat":
+            body = pr(t["a"], 1) + pr(t["b"], 2)
+        elif k in ("star", "plus", "opt"):
+            body = pr(t["a"], 2) + [{"star": "*", "plus": "+", "opt": "?"}[k]]
+        else:
+            body = pr(t["a"], 3) + ["#"] + pr(t["b"], 4)
+        if lv.get(k, 4) < lvl:
+            body = ["("] + body + [")"]
+        return body
+    return pr(t, 0)
+
+
+def with_var(t):
+    """tokens of tree t with its left/only operand replaced by `$v` (a variable is an atom)"""
+    k = t["k"]
+    if k in ("star", "plus", "opt"):
+        return ["$v", {"star": "*", "plus": "+", "opt": "?"}[k]]
+    rb = sub_toks(t["b"])
+    lvl_b = {"alt": 1, "cat": 2, "diff": 4}[k]
+    lv = {"alt": 0, "cat": 1, "star": 2, "plus": 2, "opt": 2, "diff": 3}
+    if lv.get(t["b"]["k"], 4) < lvl_b:
+        rb = ["("] + rb + [")"]
+    if k == "alt":
+        return ["$v", "|"] + rb
+    if k == "cat":
+        return ["$v"] + rb
+    return ["$v", "#"] + rb
+
+
+BODY_TXT = {"lit": "'a' 'b'", "usex": "$x 'c'", "usey": "$y", "badbi": "$$nosuchclass 'a'",
+            "baddiff": "'a' # \"bc\""}
+
+MALFORMED = [
+    ("missing arrow", "L u8; 'a' = 0u8,"),
+    ("missing semicolon after header", "L -> u8 'a' = 0u8,"),
+    ("rule set without name", "L -> u8; rule { 'a' = 0u8, }"),
+    ("missing comma after rule", "L -> u8; 'a' = 0u8 'b' = 1u8,"),
+    ("let without =", "L -> u8; let x 'a'; 'b' = 0u8,"),
+    ("let without semicolon", "L -> u8; let x = 'a' 'b' = 0u8,"),
+    ("unknown keyword", "L -> u8; foo 'a' = 0u8,"),
+    ("type with wrong name", "L -> u8; type Err = u8; 'a' = 0u8,"),
+    ("empty alternative", "L -> u8; 'a' | = 0u8,"),
+    ("dangling #", "L -> u8; 'a' # = 0u8,"),
+    ("postfix without operand", "L -> u8; * 'a' = 0u8,"),
+    ("unclosed range in set", "L -> u8; ['a'-] = 0u8,"),
+    ("empty parentheses", "L -> u8; () 'a' = 0u8,"),
+    ("right context without regex", "L -> u8; 'a' > = 0u8,"),
+    ("missing rule body", "L -> u8; 'a' =>,"),
+]
+
+
+def def_text(items):
+    out = []
+    for it in items:
+        k = it["k"]
+        if k == "err":
+            out.append("type Error = u8;")
+        elif k == "let":
+            out.append("let %s = %s;" % (it["n"], BODY_TXT[it["body"]]))
+        elif k == "rule":
+            out.append("%s = 0u8," % BODY_TXT[it["body"]])
+        else:
+            out.append("rule %s { %s }" % (it["n"], def_text(it["items"])))
+    return " ".join(out)
+
+
+def check_C17(tier, seed):
+    from common import run_tlc
+    import random
+    out = Outcome("C17")
+    cases = []
+    states = 0
+    trans = 0
+    cmd = ""
+    for cfg in ("MC_Defs_a.cfg", "MC_Defs_b.cfg"):
+        tlc = run_tlc("Defs.tla", cfg, workers=8, timeout=1500, tag="C17_" + cfg[8])
+        if not tlc.ok:
+            raise ToolError("TLC found an error in Defs.tla:\n" + str(tlc.error))
+        cases += tlc.tagged.get("DEF", [])
+        states += tlc.distinct
+        trans += tlc.states
+        cmd = tlc.cmd
+    # de-duplicate (the two configurations overlap)
+    seen = {}
+    for c in cases:
+        seen[json.dumps(c["items"], sort_keys=True)] = c
+    cases = list(seen.values())
+    rnd = random.Random(seed)
+    bad = [c for c in cases if not c["wf"]]
+    good = [c for c in cases if c["wf"]]
+    if tier == "quick":
+        bad = rnd.sample(bad, min(len(bad), 25000))
+    sel = bad + good
+    invs = []
+    for i, c in enumerate(sel):
+        invs.append(("V%d" % i, "L%d -> u8; %s" % (i, def_text(c["items"]))))
+    for j, (what, text) in enumerate(MALFORMED):
+        invs.append(("V%d" % (900000 + j), text.replace("L ", "L%d " % (900000 + j), 1)))
+    ws, outcomes, ok, err = verif_crates("C17", invs)
+    if not ok and not outcomes:
+        raise ToolError("C17 verif crates failed to build:\n" + err[-2000:])
+    n_rej = n_acc = 0
+    for i, c in enumerate(sel):
+        o = outcomes.get("V%d" % i)
+        text = def_text(c["items"])
+        key = "definition: %s" % text
+        if o is None:
+            # a crash of the compiler process is a rejection of sorts, but not an orderly one
+            out.violations.append({"key": key, "desc": "no outcome recorded for `%s` (compiler crashed?)" % text,
+                                   "payload": {"kind": "definition", "text": text, "items": c["items"]}})
+            continue
+        if c["wf"]:
+            if o["outcome"] != "ok":
+                out.notes.append("well-formed definition rejected (C12's business): %s :: %s" % (text, o.get("message", "")[:80]))
+            else:
+                n_acc += 1
+        else:
+            if o["outcome"] == "ok":
+                out.violations.append({"key": key, "desc": "ill-formed definition was silently turned into a lexer: `%s`" % text,
+                                       "payload": {"kind": "definition", "text": text, "items": c["items"], "outcome": o}})
+            else:
+                n_rej += 1
+    n_syn = 0
+    for j, (what, text) in enumerate(MALFORMED):
+        o = outcomes.get("V%d" % (900000 + j))
+        if o is None or o["outcome"] == "ok":
+            out.violations.append({"key": "malformed syntax: %s" % what, "desc": "malformed definition (%s) was accepted: `%s`" % (what, text),
+                                   "payload": {"kind": "definition", "text": text, "outcome": o}})
+        else:
+            n_syn += 1
+    out.notes = out.notes[:5]
+    out.coverage = {
+        "states": states, "transitions": trans,
+        "traces_validated_against_impl": n_rej + n_acc + n_syn,
+        "ill_formed_definitions_rejected": n_rej, "well_formed_definitions_accepted": n_acc,
+        "malformed_syntax_cases_rejected": n_syn,
+        "definitions_enumerated": len(cases),
+        "rule": "Defs.tla: every definition with <= 3 top-level items (rule sets with <= 1 inner item) and "
+                "<= 2 top-level items (rule sets with <= 2 inner items) over: `type Error`, `let x/y` "
+                "(bodies: plain, using $x, unknown built-in, non-class operand of #), unnamed rules, "
+                "rule sets Init/A with local lets and rules; TLC evaluates WellFormed (mixing, first "
+                "rule set Init, duplicates, error type twice, lazily resolved unbound variables, "
+                "unknown built-in / bad # operand in a used position) and prints each definition with "
+                "the verdict; every ill-formed one%s and every well-formed one is expanded by the "
+                "real macro: ill-formed => panic or compile_error, never code; plus %d hand-written "
+                "malformed-syntax definitions" % (" (a seeded sample of 25000 in the quick tier)" if tier == "quick" else "", len(MALFORMED)),
+        "samples": [{"definition": def_text(bad[0]["items"]), "well_formed": False},
+                    {"definition": def_text(good[0]["items"]), "well_formed": True}],
+        "tlc_cmd": cmd, "exhaustive": tier != "quick",
+    }
+    return out
+
+
+# ---------------------------------------------------------------------------------------------
+# C02: regex operators denote their documented languages (artifact validation by bisimulation)
+# ---------------------------------------------------------------------------------------------
+
+def fre_trees(max_ops):
+    from progs import chr_, str_, set_, any_, star, plus, opt, cat, alt
+    atoms = [chr_(97), chr_(98), str_([97, 98]), set_([(97, 98)]), set_([(97, 97), (99, 99)]), any_()]
+    by = {0: list(atoms)}
+    for n in range(1, max_ops + 1):
+        cur = []
+        for t in by[n - 1]:
+            cur += [star(t), plus(t), opt(t)]
+        for m in range(0, n):
+            for l in by[m]:
+                for r in by[n - 1 - m]:
+                    cur += [cat(l, r), alt(l, r)]
+        by[n] = cur
+    out = []
+    for n in range(0, max_ops + 1):
+        out += by[n]
+    return out
+
+
+def rewrite_equiv(re, rnd):
+    """A regex denoting the same language, by one of the README equivalences applied at the
+    first place where one applies: r+ -> r r*, a|b -> b|a, "ab" -> 'a' 'b'."""
+    from progs import cat, star, alt, chr_
+    k = re["k"]
+    if k == "plus":
+        return cat(re["a"], star(re["a"]))
+    if k == "alt":
+        return alt(re["b"], re["a"])
+    if k == "str" and len(re["s"]) >= 2:
+        out = chr_(re["s"][0])
+        for c in re["s"][1:]:
+            out = cat(out, chr_(c))
+        return out
+    for f in ("a", "b"):
+        if f in re:
+            r2 = rewrite_equiv(re[f], rnd)
+            if r2 is not None:
+                return dict(re, **{f: r2})
+    return None
+
+
+def confirm_on_real(pid, tag, prog, inputs):
+    """Replay the reference behaviours for `inputs` on the real compiled lexer of `prog`.
+    Returns list of mismatches (req, actual)."""
+    import copy
+    q = copy.copy(prog)
+    q.inputs = [list(i) for i in inputs]
+    fr = replay_family(tag, [q], workers=2, tlc_timeout=300)
+    return fr
+
+
+def bad_to_violation(out, pid, b_, byid, what, confirm=True):
+    """A disagreement found by TLC between a real automaton and the reference automaton: turn the
+    path into witness inputs and confirm on the real lexer before reporting (DESIGN 2.2)."""
+    prog = byid[b_["p"]]
+    path = [c for c in b_["path"] if c >= 0]
+    key = "artifact prog=%s mode=%s path=%s" % (prog.body().replace("\n", " ").replace("  ", " "), b_["mode"], path)
+    desc = "%s: the automaton compiled for program %d (%s, rule set/context %d) disagrees with the reference automaton after reading %s" % (
+        what, b_["p"], b_["mode"], b_["which"], path)
+    confirmed = None
+    if confirm and prog.well_formed() and b_["mode"] != "ctx":
+        inputs = [path] + [path + [c] for c in boundary_reps(prog)[:12]]
+        try:
+            fr = confirm_on_real(pid, pid + "_confirm", prog, inputs)
+            confirmed = len(fr.mismatches) > 0 or len(fr.build_failures) > 0
+            if confirmed and fr.mismatches:
+                m = fr.mismatches[0]
+                desc += "; confirmed on the real lexer: input %s gives %s, expected %s" % (
+                    m["req"]["inp"], proj_tokens(strip_lx(m["actual"]))[:6], proj_tokens(m["req"]["ev"])[:6])
+        except ToolError as ex:
+            desc += " (confirmation run failed: %s)" % str(ex)[:100]
+    if confirmed is False:
+        out.notes.append("MODEL-DRIFT: " + desc + " -- but the real lexer behaves as the reference on the witness inputs")
+        return
+    out.violations.append({"key": key, "desc": desc,
+                           "payload": {"kind": "artifact", "program": prog.to_json(), "src": prog.body(),
+                                       "disagreement": b_, "confirmed_on_real_lexer": confirmed}})
+
+
+def check_C02(tier, seed):
+    import random
+    from progs import nullable, classes_ok
+    out = Outcome("C02")
+    rnd = random.Random(seed)
+    trees = [t for t in fre_trees(2) if not nullable(t, {}) and classes_ok(t, {})]
+    if tier == "thorough":
+        t3 = [t for t in fre_trees(3) if not nullable(t, {}) and classes_ok(t, {})]
+        trees = trees + rnd.sample(t3, min(len(t3), 20000))
+    progs = []
+    for i, t in enumerate(trees):
+        progs.append(Program(i + 1, [("Init", [F.simple_rule(t)])], sigma=(97, 98, 99, 120), k=4))
+    # larger random ones: overlapping ranges, `_` mixed with ranges and literals, nested repetition
+    big = F.random_general(seed, sizes(tier, 150, 3000), 200000, k=3, nsets=(1, 1, 2), nrules=(1, 2, 3),
+                           depth=4, p_ctx=0.15, p_eoi=0.15, p_var=0.3, menu_sizes=(1,))
+    allp = progs + big
+    byid = {p.id: p for p in allp}
+    ws, dumps, outs, ok, err = dump_programs("C02", allp, nb=14)
+    pairs = []
+    crossed = 0
+    for p in allp:
+        d = dumps.get(p.id)
+        if d is None or d.get("panicked") or "dfa" not in d:
+            o = outs.get(p.id)
+            out.notes.append("program %d not expanded (%s) -- judged by C12" % (p.id, o and o.get("outcome")))
+            continue
+        pairs.append((p, d, None))
+        # the automaton of a regex must also be the reference automaton of an equivalent regex
+        if p.id < 200000:
+            r0 = p.sets[0][1][0]["re"]
+            r2 = rewrite_equiv(r0, rnd)
+            if r2 is not None:
+                j = p.to_json()
+                j["rules"][0]["re"] = r2
+                pairs.append((p, d, j))
+                crossed += 1
+    out.notes = out.notes[:5]
+    res, bad, badmap, seen = bisim_check("C02", pairs, workers=12 if tier == "quick" else 14)
+    for b_ in bad[:30]:
+        bad_to_violation(out, "C02", b_, byid, "language differs")
+    # oracle self-check: declarative Ends / Open agree with the derivative automaton
+    from common import run_tlc, BUILD
+    sample = rnd.sample(progs, min(len(progs), sizes(tier, 300, 3000)))
+    pj = os.path.join(BUILD, "C02", "oracle_progs.json")
+    with open(pj, "w") as f:
+        json.dump([p.to_json() for p in sample], f)
+    orc = run_tlc("MC_RefLexer.tla", "MC_RefLexer_oracle.cfg", env={"VERIF_PROGS": pj}, workers=10,
+                  timeout=1500, tag="C02_oracle")
+    if not orc.ok:
+        raise ToolError("the reference specification is inconsistent (declarative vs derivative): " + str(orc.error))
+    # a sample compiled for real and run on all inputs
+    run_sample = rnd.sample(progs, min(len(progs), sizes(tier, 100, 600))) + big[:sizes(tier, 30, 300)]
+    fr = replay_family("C02", run_sample, workers=8, tlc_timeout=900)
+    rb = {p.id: p for p in run_sample}
+    other = replay_violations(out, fr, lambda evs: proj_tokens(evs, stop_at_invalid=False), rb,
+                              "tokens of the lexer differ from the regex languages")
+    out.coverage = {
+        "states": res.distinct + orc.distinct + fr.tlc.distinct,
+        "transitions": res.states + orc.states + fr.tlc.states,
+        "traces_validated_against_impl": len(seen) + fr.ok_runs,
+        "programs": len(allp),
+        "automata_compared_with_reference": len(pairs),
+        "of_which_against_an_equivalent_regex": crossed,
+        "product_states": res.distinct,
+        "disagreements_checked": len(bad),
+        "oracle_selfcheck_states": orc.distinct,
+        "behaviours_replayed": fr.runs,
+        "rule": "all non-nullable regex trees with <= 2 operators over atoms 'a' 'b' \"ab\" ['a'-'b'] "
+                "['a' 'c'] _ and operators * + ? concatenation | (thorough: + a sample of 3-operator "
+                "trees) as one-rule definitions, plus seeded random larger definitions (depth 4, "
+                "variables, contexts, `$`, several rules and rule sets); each is expanded by the real "
+                "macro and the automata it built (before and after simplification, from every rule "
+                "set entry, and every context automaton) are compared with the Antimirov derivative "
+                "automaton of the definition by TLC exploring the product (exact for all strings); "
+                "each small automaton is additionally compared with the reference automaton of an "
+                "equivalent regex (r+ / r r*, commuted |, string / character concatenation); TLC "
+                "checks that the declarative semantics (Ends, Open) and the derivative automaton "
+                "agree; a sample is compiled and run on all inputs of length <= 4",
+        "samples": [{"definition": progs[7].body(), "dump_states": len(dumps[progs[7].id]["dfa"])}] + fr.samples[:1],
+        "tlc_cmd": res.cmd, "exhaustive": True,
+        "mismatches_outside_projection": other,
+    }
+    return out
+
+
+def artifact_part(out, pid, tier, progs, what, need_bt=True):
+    """(D) for the programs a replay check used: automata vs reference (Bisim.tla), index maps,
+    and the recorded backtrack analysis vs Backtrack.tla."""
+    byid = {p.id: p for p in progs}
+    ws, dumps, outs, ok, err = dump_programs(pid + "_art", progs, nb=10)
+    pairs = [(p, dumps[p.id], None) for p in progs
+             if dumps.get(p.id) and not dumps[p.id].get("panicked") and "renumber" in dumps[p.id]]
+    if not pairs:
+        return
+    res, bad, badmap, seen = bisim_check(pid + "_art", pairs)
+    for b_ in bad[:20]:
+        bad_to_violation(out, pid, b_, byid, what)
+    for m in badmap[:20]:
+        prog = byid[m["p"]]
+        out.violations.append({
+            "key": "indexmap prog=%s" % prog.body().replace("\n", " ").replace("  ", " "),
+            "desc": "state renumbering of program %d is inconsistent (injective %s, patterns %s, switch arms %s, inlining %s)" % (
+                m["p"], m["inj"], m["pat"], m["sw"], m["inl"]),
+            "payload": {"kind": "artifact", "program": prog.to_json(), "src": prog.body(), "indexmap": m}})
+    cov = out.coverage
+    cov["automata_compared_with_reference"] = len(pairs)
+    cov["product_states"] = res.distinct
+    cov["states"] = cov.get("states", 0) + res.distinct
+    cov["transitions"] = cov.get("transitions", 0) + res.states
+    if need_bt:
+        bt_part(out, pid, tier, [(p, dumps[p.id]) for p, d, _ in pairs], byid)
+
+
+def bt_part(out, pid, tier, prog_dumps, byid):
+    """Recorded work-list iterations of the real update_backtracks vs Backtrack.tla."""
+    from common import run_tlc, BUILD
+    recs = []
+    for i, (p, d) in enumerate(prog_dumps):
+        if d.get("bt_truncated"):
+            continue
+        dfa = d["dfa_pre"]
+        if tier == "quick" and len(dfa) > 120:
+            continue
+        succ = []     # per state: one target per transition (the analysis pushes one item per transition)
+        for si, st in enumerate(dfa):
+            ts = [e["t"]["s"] for e in st["chars"]] + [e["t"]["s"] for e in st["ranges"]]
+            ts += [e["s"] for e in st["any"] + st["eoi"]]
+            succ.append(ts)
+        recs.append({"i": p.id, "n": len(dfa), "succ": succ,
+                     "acc": [si for si, st in enumerate(dfa) if st["acc"]],
+                     "init": [si for si, st in enumerate(dfa) if st["initial"]],
+                     "trace": [{"s": e["s"], "b": e["b"], "prev": e["prev"]} for e in d["bt_trace"]],
+                     "flags": [1 if st["backtrack"] else 0 for st in dfa]})
+    if not recs:
+        return
+    d_ = os.path.join(BUILD, pid + "_art")
+    os.makedirs(d_, exist_ok=True)
+    tj = os.path.join(d_, "bt.ndjson")
+    with open(tj, "w") as f:
+        for r in recs:
+            f.write(json.dumps(r, separators=(",", ":")) + "\n")
+    res = run_tlc("Trace_Backtrack.tla", "Trace_Backtrack.cfg", env={"VERIF_BT": tj}, workers=8,
+                  timeout=1500, tag=pid + "_bttrace")
+    if not res.ok:
+        raise ToolError("TLC failed on Trace_Backtrack.tla: %s" % res.error)
+    acc = {a["i"] for a in res.tagged.get("ACCEPT", [])}
+    rej = [r for r in recs if r["i"] not in acc]
+    for r in rej[:10]:
+        prog = byid[r["i"]]
+        out.violations.append({
+            "key": "backtrack-analysis prog=%s" % prog.body().replace("\n", " ").replace("  ", " "),
+            "desc": "the recorded backtrack analysis of program %d is not a behaviour of Backtrack.tla "
+                    "(non-monotone update, missing state, or final flags that differ from reachability)" % r["i"],
+            "payload": {"kind": "artifact", "program": prog.to_json(), "src": prog.body(), "recording": r}})
+    cov = out.coverage
+    cov["backtrack_recordings_validated"] = len(recs) - len(rej)
+    cov["backtrack_recordings_rejected"] = len(rej)
+    cov["states"] = cov.get("states", 0) + res.distinct
+    cov["transitions"] = cov.get("transitions", 0) + res.states
+    cov["traces_validated_against_impl"] = cov.get("traces_validated_against_impl", 0) + len(recs) - len(rej)
+
+
+# ---------------------------------------------------------------------------------------------
+# C12: expansion terminates, is deterministic, output compiles
+# ---------------------------------------------------------------------------------------------
+
+C12_SCENARIOS = [
+    ("two_table_lexers_in_one_module", """
+pub mod m {
+    lexgen::lexer! { pub LexA -> u8; $$alphabetic+ = 0u8, _ = 1u8, }
+    lexgen::lexer! { pub LexB -> u8; $$uppercase+ = 0u8, _ = 1u8, }
+}
+fn main() { assert_eq!(m::LexA::new("ab1").count(), 2); assert_eq!(m::LexB::new("AB1").count(), 2); }
+"""),
+    ("three_lexers_with_contexts_and_tables_in_one_module", """
+lexgen::lexer! { L1 -> u8; 'a' > $$alphanumeric = 0u8, 'a' = 1u8, $$numeric = 2u8, _ = 3u8, }
+lexgen::lexer! { L2 -> u8; 'a' > "bc" = 0u8, 'a' > ('b' | "cd")+ $ = 1u8, $$lowercase = 2u8, _ = 3u8, }
+lexgen::lexer! { L3(u32) -> u8; rule Init { $$XID_Start $$XID_Continue* => |lexer| lexer.switch_and_return(L3Rule::S, 0u8), _ = 1u8, } rule S { $$whitespace+, _ => |lexer| lexer.switch_and_return(L3Rule::Init, 2u8), } }
+fn main() { assert_eq!(L1::new("a1a-").count(), 4); assert_eq!(L2::new("abc").count(), 3); assert_eq!(L3::new("ab  c").count(), 2); }
+"""),
+    ("bracket_set_repeating_a_character", """
+lexgen::lexer! { L -> u8; ['a' 'a' 'b'] = 0u8, ['c' 'c'-'e' 'c']+ = 1u8, ['x' 'y' 'x' 'y'] # 'y' = 2u8, }
+fn main() { let v: Vec<_> = L::new("abccdx").map(|r| r.unwrap().1).collect(); assert_eq!(v, vec![0, 0, 1, 2]); }
+"""),
+    ("right_contexts_of_any_shape", """
+lexgen::lexer! { L -> u8;
+    'a' > "bc" = 0u8, 'a' > ('b' 'c'* 'd' | "xy") = 1u8, 'a' > ['b'-'d']+ 'e' = 2u8, 'a' > 'z'? $ = 3u8,
+    'a' > _ _ 'q' = 4u8, 'a' > ('m' | 'n' 'o')+ = 5u8, 'a' = 6u8, _ = 7u8, }
+fn main() { let v: Vec<_> = L::new("abcaxyaz").map(|r| r.unwrap().1).collect(); assert_eq!(v[0], 0); }
+"""),
+    ("large_builtins_and_many_rule_sets", """
+lexgen::lexer! { L -> u8;
+    rule Init { $$alphabetic+ => |lexer| lexer.switch_and_return(LRule::A, 0u8), $$numeric+ = 1u8, $$whitespace, _ = 9u8, }
+    rule A { $$alphanumeric => |lexer| lexer.switch_and_return(LRule::B, 2u8), _ => |lexer| lexer.switch_and_return(LRule::Init, 3u8), }
+    rule B { ($$uppercase | $$lowercase)* '!' => |lexer| lexer.switch_and_return(LRule::C, 4u8), _ => |lexer| lexer.switch_and_return(LRule::Init, 5u8), }
+    rule C { $$XID_Start # ['a'-'z'] = 6u8, _ => |lexer| lexer.switch_and_return(LRule::Init, 7u8), $ = 8u8, }
+}
+fn main() { assert!(L::new("ab1 cd!E x").count() > 3); }
+"""),
+]
+
+
+def big_family(seed, n, base_id):
+    from progs import Gen, set_, bi, cat, star, plus, chr_, alt
+    import random
+    rnd = random.Random(seed)
+    out = []
+    out += F.random_general(seed, n, base_id, k=2, nsets=(1, 2, 3), nrules=(8, 12, 16, 20), depth=3,
+                            p_ctx=0.25, p_eoi=0.15, p_var=0.2, menu_sizes=(1, 2), p_join=0.6)
+    # 20-40 rules in one rule set
+    g = Gen(seed + 5)
+    for i in range(max(2, n // 6)):
+        rules = []
+        for _ in range(rnd.randrange(20, 41)):
+            rules.append(F.inf_rule(g.rule_regex(3), ctx=g.ctx_regex(2) if rnd.random() < 0.2 else None))
+        out.append(Program(base_id + 5000 + i, [("Init", rules)], k=2))
+    # repeated set members, built-ins
+    for i in range(max(2, n // 6)):
+        a = rnd.choice([97, 98, 99])
+        items = [(a, a), (a, a), (rnd.choice([97, 98, 99, 100]),) * 2, (98, 100)]
+        rnd.shuffle(items)
+        rules = [F.simple_rule(cat(set_(items), star(chr_(120)))),
+                 F.simple_rule(plus(bi(rnd.choice(["alphabetic", "numeric", "XID_Continue", "lowercase"])))),
+                 F.simple_rule(alt(bi("ascii_digit"), bi("whitespace")))]
+        out.append(Program(base_id + 6000 + i, [("Init", rules)], k=2))
+    out += F.fixed_mm(base_id + 7000)
+    return out
+
+
+def check_C12(tier, seed):
+    from common import Workspace, run_tlc, BUILD, REPO
+    out = Outcome("C12")
+    # A. the worklist algorithm terminates for every processing order; naming scheme is clash-free
+    cfg = "MC_Backtrack_small.cfg" if tier == "quick" else "MC_Backtrack.cfg"
+    bt = run_tlc("Backtrack.tla", cfg, workers=12, timeout=3000, tag="C12_bt", heap="10g")
+    if not bt.ok:
+        raise ToolError("Backtrack.tla: " + str(bt.error))
+    nm = run_tlc("MC_Names.tla", "MC_Names.cfg", workers=4, timeout=600, tag="C12_names")
+    if not nm.ok:
+        raise ToolError("Names.tla: " + str(nm.error))
+    # B. expansion only: terminates (watchdog + wall clock), deterministic
+    progs = big_family(seed, sizes(tier, 60, 600), 100)
+    byid = {p.id: p for p in progs}
+    ws, dumps, outs, ok, err = dump_programs("C12", progs, nb=14)
+    n_ok = 0
+    slowest = 0
+    names_rec = []
+    for p in progs:
+        o = outs.get(p.id)
+        key = "expansion prog=%s" % p.body().replace("\n", " ").replace("  ", " ")[:3000]
+        hang = os.path.exists(os.path.join(ws.dumps, p.lexer_name() + ".hang"))
+        if hang:
+            out.violations.append({"key": key, "desc": "macro expansion of program %d did not finish within the watchdog limit (60 s): %s" % (p.id, p.body()[:300]),
+                                   "payload": {"kind": "expansion", "program": p.to_json(), "src": p.body(), "what": "hang"}})
+            continue
+        if o is None:
+            out.notes.append("program %d: no outcome (lost when a sibling expansion hung)" % p.id)
+            continue
+        if o["outcome"] != "ok":
+            out.violations.append({"key": key, "desc": "macro expansion of well-formed program %d failed (%s): %s" % (p.id, o["outcome"], o["message"][:200]),
+                                   "payload": {"kind": "expansion", "program": p.to_json(), "src": p.body(), "outcome": o}})
+            continue
+        if not o["same"]:
+            out.violations.append({"key": key + " nondeterministic", "desc": "two expansions of program %d differ" % p.id,
+                                   "payload": {"kind": "expansion", "program": p.to_json(), "src": p.body(), "what": "nondeterministic"}})
+            continue
+        if o["millis"] > 30000:
+            out.violations.append({"key": key + " slow", "desc": "expansion of program %d took %d ms" % (p.id, o["millis"]),
+                                   "payload": {"kind": "expansion", "program": p.to_json(), "src": p.body(), "millis": o["millis"]}})
+            continue
+        slowest = max(slowest, o["millis"])
+        n_ok += 1
+        d = dumps.get(p.id)
+        if d:
+            ntab = len([x for x in o["items"] if "RANGE_TABLE" in x])
+            names_rec.append({"name": p.lexer_name(), "nact": len(p.rules()),
+                              "nctx": len(d.get("ctx", [])), "ntab": ntab, "items": o["items"]})
+    out.notes = out.notes[:5]
+    # names recorded vs the scheme
+    names_ok = 0
+    if names_rec:
+        nj = os.path.join(BUILD, "C12", "names.ndjson")
+        with open(nj, "w") as f:
+            for r in names_rec:
+                f.write(json.dumps(r) + "\n")
+        nr = run_tlc("MC_NamesRec.tla", "MC_NamesRec.cfg", env={"VERIF_NAMES": nj}, workers=4, timeout=600, tag="C12_namesrec")
+        if not nr.ok:
+            raise ToolError("MC_NamesRec: " + str(nr.error))
+        okn = {x["name"] for x in nr.tagged.get("NAMESOK", [])}
+        names_ok = len(okn)
+        for r in names_rec:
+            if r["name"] not in okn and len([v for v in out.violations if v["key"].startswith("names")]) < 3:
+                out.violations.append({"key": "names scheme %s" % sorted(x for x in r["items"] if not x.startswith("fn L") or "ACTION" not in x)[:8],
+                                       "desc": "module-level items of %s are not the ones the clash-free naming scheme gives: %s" % (
+                                           r["name"], [x for x in r["items"] if "ACTION" not in x][:10]),
+                                       "payload": {"kind": "names", "recorded": r}})
+    # the recorded backtrack analyses terminate for the right reason
+    bt_part(out, "C12", tier, [(p, dumps[p.id]) for p in progs
+                               if dumps.get(p.id) and not dumps[p.id].get("panicked") and "dfa_pre" in dumps[p.id]], byid)
+    # C. real compilation of the scenarios the property lists, and of a sample of the family
+    ws2 = Workspace("C12x")
+    deps = 'lexgen = { path = "%s/crates/lexgen" }\nlexgen_util = { path = "%s/crates/lexgen_util" }\n' % (REPO, REPO)
+    for name, text in C12_SCENARIOS:
+        ws2.add_crate("c12_" + name, "#![allow(dead_code, unused)]\n" + text, deps=deps)
+    ok2, err2 = ws2.build(timeout=2400, keep_going=True)
+    n_sc = 0
+    for name, text in C12_SCENARIOS:
+        crate = "c12_" + name
+        failed = ("could not compile `%s`" % crate) in err2
+        binp = ws2.binary(crate)
+        if failed or not os.path.exists(binp):
+            import re as _re
+            msgs = _re.findall(r"%s/src/main\.rs:\d+:\d+: (error[^\n]*)" % crate, err2)
+            out.violations.append({"key": "scenario %s" % name,
+                                   "desc": "scenario `%s` does not compile: %s" % (name, "; ".join(msgs[:3])[:400]),
+                                   "payload": {"kind": "scenario", "name": name, "text": text, "errors": msgs[:10]}})
+            continue
+        import subprocess
+        cp = subprocess.run(["timeout", "60", binp], capture_output=True, text=True)
+        if cp.returncode != 0:
+            out.violations.append({"key": "scenario %s runs" % name,
+                                   "desc": "scenario `%s` compiled but its smoke run failed (rc=%d): %s" % (name, cp.returncode, cp.stderr[-300:]),
+                                   "payload": {"kind": "scenario", "name": name, "text": text, "stderr": cp.stderr[-2000:]}})
+            continue
+        n_sc += 1
+    sample = [p for p in progs if not any(r_["re"]["k"] == "bi" or "bi" in json.dumps(r_["re"]) for r_ in p.rules())]
+    import random
+    sample = random.Random(seed).sample(sample, min(len(sample), sizes(tier, 16, 120)))
+    from pipeline import build_family
+    try:
+        ws3, batches, failures = build_family("C12", sample, expand_timeout=60)
+    except ToolError as ex:
+        failures = [{"program": -1, "kind": "build", "message": str(ex)[:500]}]
+    for f_ in failures:
+        p = byid.get(f_["program"])
+        out.violations.append({"key": "compile prog=%s" % (p.body().replace("\n", " ")[:3000] if p else "?"),
+                               "desc": "generated code of program %s does not build (%s): %s" % (f_["program"], f_["kind"], f_["message"][:300]),
+                               "payload": {"kind": "compile", "program": p.to_json() if p else None, "src": p.body() if p else None, "failure": f_}})
+    cov = out.coverage
+    cov.update({
+        "states": cov.get("states", 0) + bt.distinct + nm.distinct,
+        "transitions": cov.get("transitions", 0) + bt.states + nm.states,
+        "traces_validated_against_impl": cov.get("traces_validated_against_impl", 0) + n_ok + names_ok,
+        "definitions_expanded_twice": len(progs), "expansions_ok": n_ok, "slowest_expansion_ms": slowest,
+        "item_name_sets_matching_scheme": names_ok,
+        "scenarios_compiled_and_run": n_sc, "scenarios": [n_ for n_, _ in C12_SCENARIOS],
+        "family_sample_compiled_by_rustc": len(sample) - len(failures),
+        "rule": "Backtrack.tla: termination (liveness under weak fairness), monotonicity and correctness "
+                "of the work-list analysis for every graph with <= %d states and every processing order; "
+                "Names.tla: item names of two lexers are disjoint; then seeded definitions (8-40 rules, "
+                "1-3 rule sets, contexts, `$`, variables, repeated bracket-set members, big built-ins, the "
+                "property's own examples) are expanded twice by the real macro under a watchdog "
+                "(outcome ok, identical token streams, < 30 s), the recorded work-list iterations are "
+                "validated against Backtrack.tla, recorded item names against Names.tla; the scenarios "
+                "the property lists (several table-using lexers in one module, contexts of any shape, "
+                "repeated set members, large built-ins with many rule sets) and a sample of the family "
+                "are compiled by rustc and smoke-run" % (2 if tier == "quick" else 3),
+        "samples": [{"definition": progs[0].body()[:600]}],
+        "tlc_cmd": bt.cmd, "exhaustive": False,
+    })
+    return out
+
+
 def setup():
     """Warm the cargo target directory (dependencies, lexgen with hooks) and check the tools."""
     import subprocess
@@ -1355,6 +2204,7 @@ def setup():
 
 CHECKS = {
     "C01": check_C01,
+    "C02": check_C02,
     "C03": check_C03,
     "C04": check_C04,
     "C05": check_C05,
@@ -1364,8 +2214,11 @@ CHECKS = {
     "C09": check_C09,
     "C10": check_C10,
     "C11": check_C11,
+    "C12": check_C12,
     "C13": check_C13,
     "C14": check_C14,
     "C15": check_C15,
+    "C16": check_C16,
+    "C17": check_C17,
     "C18": check_C18,
 }
